@@ -23,7 +23,7 @@ impl SwiftField for Field54A {
     where
         Self: Sized,
     {
-        let lines: Vec<&str> = input.split('\n').collect();
+        let lines = super::field_utils::content_lines(input, "Field 54A")?;
 
         if lines.is_empty() {
             return Err(ParseError::InvalidFormat {
@@ -93,7 +93,7 @@ impl SwiftField for Field54B {
             });
         }
 
-        let lines: Vec<&str> = input.split('\n').collect();
+        let lines = super::field_utils::content_lines(input, "Field 54B")?;
         let mut party_identifier = None;
         let mut location = None;
         let mut line_idx = 0;
@@ -149,7 +149,7 @@ impl SwiftField for Field54D {
     where
         Self: Sized,
     {
-        let lines: Vec<&str> = input.split('\n').collect();
+        let lines = super::field_utils::content_lines(input, "Field 54D")?;
 
         if lines.is_empty() {
             return Err(ParseError::InvalidFormat {
@@ -212,7 +212,7 @@ impl SwiftField for Field54ReceiverCorrespondent {
         // B: Has optional party identifier and/or location
         // D: Has party identifier and/or multiple lines of name/address
 
-        let lines: Vec<&str> = input.split('\n').collect();
+        let lines = super::field_utils::content_lines(input, "Field 54ReceiverCorrespondent")?;
         let last_line = lines.last().unwrap_or(&"");
 
         // Check if last line looks like a BIC code
